@@ -530,7 +530,7 @@ def run(ctx):
         for law in ['divseq', 'powseq', 'prodseq', 'mulseq', 'antiseq']:
             if (tw and law in ('divseq', 'powseq')) or (c == 'UnitQuaternion' and law == 'prodseq'):
                 continue
-            for m in ([127, 128, 129, 256, 257] if law != 'prodseq' else [128]) + [int([2000, 2048, 2500][rng.integers(3)])] * ctx.scale(1, 3) + ([4096, 10007] if ctx.tier == 'thorough' else []):
+            for m in ([127, 128, 129, 256, 257] if law != 'prodseq' else [128]) + [int([2000, 2048, 2500][rng.integers(3)])] * ctx.scale(1, 3) + ([4096, 10007, 20011] if ctx.tier == 'thorough' else [17000] if (k_ // 7) % 3 == 0 else []):
                 k_ += 1
                 if not ctx.mine(k_):
                     continue
